@@ -156,6 +156,11 @@ where
     // The CONNECT of the current connection attempt started a new session (clean start): what
     // has been stored or recorded since then already belongs to that new session
     new_session_at_connect: bool,
+    // Persistence of the session before the CONNECT of the current attempt, and whether that
+    // attempt reached a successful CONNACK: an attempt that is never established (refused, or
+    // the transport died first) must not change what the session is
+    need_store_before_connect: bool,
+    established: bool,
     // Store for retransmission packets
     store: GenericStore<PacketIdType>,
 
@@ -266,6 +271,8 @@ where
             pid_pubcomp: HashSet::default(),
             need_store: false,
             new_session_at_connect: false,
+            need_store_before_connect: false,
+            established: false,
             store: GenericStore::new(),
             offline_publish: false,
             auto_pub_response: false,
@@ -771,6 +778,13 @@ where
         self.maximum_packet_size_send = MQTT_PACKET_SIZE_NO_LIMIT;
         self.maximum_packet_size_recv = MQTT_PACKET_SIZE_NO_LIMIT;
 
+        // A connection attempt that never got a successful CONNACK leaves the session as it
+        // was before its CONNECT (unless that CONNECT was a clean start, which already began a
+        // new session)
+        if !self.established && !self.new_session_at_connect {
+            self.need_store = self.need_store_before_connect;
+        }
+
         // Set status to disconnected
         self.status = ConnectionStatus::Disconnected;
 
@@ -846,6 +860,10 @@ where
             // published until the next CONNECT, exactly like a newly created one.
             self.need_store = self.offline_publish;
         }
+
+        self.established = false;
+        self.new_session_at_connect = false;
+        self.need_store_before_connect = self.need_store;
 
         // Cancel all timers
         self.cancel_timers(&mut events);
@@ -925,6 +943,7 @@ where
         // the persistence its CONNECT / CONNACK negotiated.
         if self.offline_publish && self.status == ConnectionStatus::Disconnected {
             self.need_store = true;
+            self.need_store_before_connect = true;
         }
     }
 
@@ -1302,6 +1321,8 @@ where
         self.topic_alias_send = None;
         self.topic_alias_recv = None;
         self.publish_recv.clear();
+        self.need_store_before_connect = self.need_store;
+        self.established = false;
         self.need_store = false;
         self.new_session_at_connect = false;
         self.pid_suback.clear();
@@ -1525,6 +1546,7 @@ where
         }
 
         self.status = ConnectionStatus::Connected;
+        self.established = true;
         if session_present || self.new_session_at_connect {
             // (after a clean start the store only holds what was handed over since the CONNECT)
             events.extend(self.send_stored());
@@ -1610,6 +1632,7 @@ where
         }
 
         self.status = ConnectionStatus::Connected;
+        self.established = true;
 
         if session_present || self.new_session_at_connect {
             // (after a clean start the store only holds what was handed over since the CONNECT)
@@ -2865,6 +2888,7 @@ where
             Ok((packet, _consumed)) => {
                 if packet.return_code() == ConnectReturnCode::Accepted {
                     self.status = ConnectionStatus::Connected;
+                    self.established = true;
                     if packet.session_present() || self.new_session_at_connect {
                         // (after a clean start the store only holds what was published since
                         // the CONNECT: it belongs to the new session and goes out now)
@@ -2912,6 +2936,7 @@ where
             Ok((packet, _consumed)) => {
                 if packet.reason_code() == ConnectReasonCode::Success {
                     self.status = ConnectionStatus::Connected;
+                    self.established = true;
 
                     // Process properties
                     for prop in packet.props() {
